@@ -10,10 +10,13 @@ NEEDS = {
  "C05": "d2_fog with Ny != Nx (non-square inner map): block stride ny instead of nx; the library's own caller is square",
  "C06": "dynamic-size Eigen vectors only, size >= 2: Hessian type Matrix<S,Dof,Dof*Dof> with Dof=-1 becomes n x 1",
  "C07": "SubManifold with two or more ADJACENT fixed dimensions: 'if' instead of 'while' when skipping fixed indices",
+ "C08": "diff::dr<2> in Numerical/Default mode with a vector-valued f whose output dof ny differs from the input dof nx: Hessian block stride ny instead of nx",
+ "C09": "a run that reaches the iteration bound without converging first: loop condition iter <= max_iter performs max_iter+1 iterations (max_iter=0 still takes a step)",
  "C10": "dense J only, non-unit scaling d: regulariser lambda*|d| instead of lambda*d^2 (sparse path untouched)",
  "C11": "velocity/acceleration Jacobians w.r.t. differences, groups with non-skew ad (SE2, SE3), at least two non-zero differences: dr_exp(-a) replaced by dr_exp(a)^T",
  "C12": "concat_local (+=) with an appended spline whose start() is not the identity (e.g. a non-localised crop), seen at end()/beyond t_max/second appended segment",
  "C13": "evaluation strictly less than one knot spacing below t_min: clamp removed, truncation toward zero gives istar=0 and u<0",
+ "C14": "fit_spline_1d with >=2 segments of different length and a spec with continuity rows (FixedDerCubic, MinDerivative): next segment's derivative scaled with the current interval",
  "C15": "SO3 exp of a tangent with rotation norm in (3pi,5pi): sign chosen from the angle instead of from q_w, so q_w<0",
  "C16": "SE_K_3<K> with K != 3, mutable runtime-index accessor r3(int k), k>=1: stride K instead of 3",
  "C17": "SO2(std::complex) with |z| != 1 (and C1::so2() with scaling != 1): divides by std::norm = |z|^2",
@@ -21,14 +24,14 @@ NEEDS = {
  "C20": "binary_interval_search on a range with a repeated value queried exactly at that value: early exit on equality",
 }
 conf = {}
-for f in ("/tmp/confirm_all.out", "/tmp/confirm_all2.out"):
+for f in ("/tmp/confirm_all.out", "/tmp/confirm_all2.out", "/tmp/confirm_all3.out"):
     if os.path.exists(f):
         for l in open(f):
             m = re.match(r"CONFIRM (C\d+): demo with change exit=(\d+), without exit=(\d+)", l)
             if m:
                 conf[m.group(1)] = (int(m.group(2)), int(m.group(3)))
 tries = {}
-for f in ("/tmp/try_all.out", "/tmp/try_all2.out", "/tmp/try_all3.out"):
+for f in ("/tmp/try_all.out", "/tmp/try_all2.out", "/tmp/try_all3.out", "/tmp/try_all4.out"):
     if os.path.exists(f):
         for l in open(f):
             m = re.match(r"TRY seed=(C\d+) check=(C\d+) exit=(\d+) : (\d+) violations; (.*)", l)
